@@ -33,9 +33,11 @@ def set_ctx_options(vc, opts):
     mctx.options = opts
 
 
-def mk_mode(vc, name):
-    """a proxy-mode object of the given class (fields of the frozen dataclass only)"""
-    return vc.new(MS + name, full_spec=MODE_SPECS[name], data=MODE_SPECS[name].partition(":")[2], custom_listen_host=None, custom_listen_port=None)
+def mk_mode(vc, name, full_spec=None, data=None):
+    """a proxy-mode object of the given class (fields of the frozen dataclass only); the spec text and the mode data may be
+    any strings: what a mode *is* is its class (ProxyMode.parse accepts e.g. `local`, `Local`, `local:curl`, `local:!curl,wget`, `local@8081`)"""
+    return vc.new(MS + name, full_spec=MODE_SPECS[name] if full_spec is None else full_spec, data=MODE_SPECS[name].partition(":")[2] if data is None else data,
+                  custom_listen_host=None, custom_listen_port=None)
 
 
 # ---- the ipaddress library, symbolic (uninterpreted) or native ---------------------------------------------------
@@ -90,7 +92,10 @@ def s_block(vc):
     mode = vc.case("mode", MODES)
     bp, bg = vc.sym_bool("block_private"), vc.sym_bool("block_global")
     pre_error = vc.opt("pre_error", vc.sym_str("pre_error_v"))
-    client = mk_client(vc, peername=(peer, port), proxy_mode=mk_mode(vc, mode), error=pre_error)
+    # the mode object: its class is `mode`; its spec text and data are arbitrary (the local-redirect exemption is about the
+    # mode being a LocalMode, whatever its spec text — and a non-local mode is not exempt whatever its text says)
+    mode_obj = mk_mode(vc, mode, full_spec=vc.sym_str("mode_full_spec"), data=vc.sym_str("mode_data"))
+    client = mk_client(vc, peername=(peer, port), proxy_mode=mode_obj, error=pre_error)
     set_ctx_options(vc, mk_options(vc, block_private=bp, block_global=bg))
     ver, val = ip_parse(vc, addr)
     vc.assume(Or(ver == 4, ver == 6))                     # requires: <address> is an IP literal
@@ -116,6 +121,7 @@ def s_block(vc):
         vc.ensure("allowed.error_unchanged", unchanged(vc, post, pre_error))
     # frame: nothing else on the client is touched
     vc.ensure("frame.peername", vc.eq(client.peername, (peer, port)))
+    vc.ensure("frame.proxy_mode", client.proxy_mode is mode_obj)
     vc.ensure("frame.state", vc.eq(client.state, _open()))
 
 
@@ -337,7 +343,12 @@ def _spec_refused(a, mode, bp, bg, use_iana):
     return bool((bp and is_private) or (bg and is_global))
 
 
-def _run_block(peer, mode, bp, bg):
+MODE_SPEC_TEXTS = ["local", "Local", "LOCAL", "local:curl", "local:!curl", "local:curl,wget", "local:!curl,!wget", "LOCAL:curl", "local@8081", "local:curl@8081",
+                   "regular", "Regular", "regular@8081", "transparent", "socks5", "socks5@1080", "upstream:http://local:3128", "upstream:https://local",
+                   "reverse:http://local", "reverse:https://local:8443", "reverse:tcp://local:25", "reverse:dns://local", "dns", "dns@5353", "wireguard", "tun", "tun:local"]
+
+
+def _run_block(peer, mode, bp, bg, mode_obj=None):
     from mitmproxy.addons import block
     from mitmproxy.proxy import mode_specs
     from mitmproxy import options
@@ -353,7 +364,7 @@ def _run_block(peer, mode, bp, bg):
     o.update(block_private=bp, block_global=bg)
     mctx.options = o
     c = sansio.make_client(peername=(peer, 40000))
-    c.proxy_mode = mode_specs.ProxyMode.parse(MODE_SPECS[mode]) if mode not in ("TunMode",) else _tun()
+    c.proxy_mode = mode_obj if mode_obj is not None else (mode_specs.ProxyMode.parse(MODE_SPECS[mode]) if mode not in ("TunMode",) else _tun())
     blk.client_connected(c)
     return c.error
 
@@ -438,6 +449,7 @@ def bounded(tier, seed):
 
 def _bounded(tier, seed):
     import itertools
+    import ipaddress
     b = Bounded()
     b.rule = ("boundary addresses (first-1, first, first+1, last-1, last, last+1) of every block of the IANA IPv4/IPv6 special-purpose registries "
               "+ ordinary unicast/multicast samples, each in plain, ::ffff:-mapped (IPv4) and %zone notation x block_private x block_global x mode class; "
@@ -469,6 +481,28 @@ def _bounded(tier, seed):
         if exp_iana is not None and bool(err) != exp_iana:
             lag = "[cpython-gh-113171]" if _in_lagging_block(a) else ""
             b.fail("block.matches_iana_registry" + lag, inp, f"expected refused={exp_iana} by the registry, client.error={err!r}")
+    # real ProxyMode objects from spec texts of every mode class: the exemption follows the class, not the spec text
+    from mitmproxy.proxy import mode_specs
+    for spec in MODE_SPEC_TEXTS:
+        try:
+            m = mode_specs.ProxyMode.parse(spec)
+        except Exception:
+            continue            # not available on this platform / invalid here: nothing to check
+        cls_name = type(m).__name__
+        for peer in ("8.8.8.8", "10.0.0.1", "127.0.0.1", "::ffff:8.8.8.8", "2606:4700:4700::1111", "fe80::1%eth0", "100.64.0.1"):
+            for bp, bg in itertools.product([False, True], repeat=2):
+                b.case(("mode-spec", spec, peer, bp, bg), nontrivial=bp or bg)
+                inp = {"mode_spec": spec, "mode_class": cls_name, "peer": peer, "block_private": bp, "block_global": bg}
+                try:
+                    err = _run_block(peer, None, bp, bg, mode_obj=m)
+                except Exception as e:
+                    b.fail("block.total", inp, f"raised {type(e).__name__}: {e}")
+                    continue
+                if cls_name == "LocalMode" and err:
+                    b.fail("block.local_redirect_mode_is_never_refused", inp, f"client.error={err!r}")
+                exp = _spec_refused(ipaddress.ip_address(peer.split("%")[0]), cls_name, bp, bg, use_iana=False)
+                if bool(err) != exp:
+                    b.fail("block.matches_spec_with_ipaddress_classification", inp, f"expected refused={exp}, client.error={err!r}")
     # refused before any protocol processing: the real handle_client
     sample = ["8.8.8.8", "10.0.0.1", "127.0.0.1", "::1", "::ffff:8.8.8.8", "fe80::1%eth0", "2a00:1450:4001:81a::200e", "::ffff:127.0.0.1", "192.168.1.1%x"]
     import ipaddress
